@@ -164,7 +164,7 @@ def opRunArr (j : Json) : Except String Json := do
       | .error e => return Json.mkObj [("terr", .str (tErrStr e))]
     else pure f
   match ArrSem.runFunA g args n.toNat with
-  | .ok a => pure (Json.mkObj [("ok", oAVal a)])
+  | .ok a => pure (Json.mkObj [("ok", oAVal a), ("noAliasedAug", .bool (VecTy.noAliasedAug g))])
   | .error e => pure (Json.mkObj [("err", .str (toString e))])
 
 end GV.Drv
